@@ -89,24 +89,42 @@ theorem ClosedL_restrict : ∀ (l : List Node) {S S' : List Name},
 
 /-! ### the invariant of the node loop -/
 
-structure ClA (S0 : List Name) (D : Name → Prop) (st : St) (acc todo : List Node) (ai : List (Name × String)) : Prop where
+def outsOf (l : List Node) : List Name := l.flatMap (·.outputs)
+
+theorem outsOf_append (a b : List Node) : outsOf (a ++ b) = outsOf a ++ outsOf b := by simp [outsOf]
+theorem outsOf_cons (n : Node) (b : List Node) : outsOf (n :: b) = n.outputs ++ outsOf b := by simp [outsOf]
+
+theorem outsOf_mid_eq (a b : List Node) (n n' : Node) (h : n'.outputs = n.outputs) :
+    outsOf (a ++ n' :: b) = outsOf (a ++ n :: b) := by
+  simp [outsOf_append, outsOf_cons, h]
+
+theorem perm_fold (A : List Name) (a b : List Node) (n : Node) (o : Name) (ho : n.outputs = [o]) :
+    List.Perm ((A ++ [o]) ++ outsOf (a ++ b)) (A ++ outsOf (a ++ n :: b)) := by
+  rw [outsOf_append, outsOf_append, outsOf_cons, ho, List.append_assoc]
+  apply List.Perm.append_left
+  simp only [List.singleton_append]
+  exact (List.perm_middle).symm
+
+structure ClA (S0 : List Name) (D : Name → Prop) (P0 : List Name) (st : St) (acc todo : List Node) (ai : List (Name × String)) : Prop where
   closed : ClosedL (ai.map (·.1) ++ S0) (acc.reverse ++ todo)
   defs : ∀ x, D x → x ∈ ai.map (·.1) ++ S0 ∨ ∃ m, (m ∈ acc ∨ m ∈ todo) ∧ x ∈ m.outputs
   alias : ∀ x y, lookupA st.sym x = some (.alias y) → y ∈ ai.map (·.1) ++ S0 ∨ ∃ m ∈ acc, y ∈ m.outputs
   innf : ∀ m ∈ todo, ∀ x, some x ∈ m.inputs → NF x
   aliasNF : ∀ x y, lookupA st.sym x = some (.alias y) → NF y
+  perm : List.Perm (ai.map (·.1) ++ outsOf (acc.reverse ++ todo)) P0
 
 /-- what holds of the result of the node loop -/
-def FinalCl (S0 : List Name) (D : Name → Prop) (r : St × List Node × List (Name × String)) : Prop :=
+def FinalCl (S0 : List Name) (D : Name → Prop) (P0 : List Name) (r : St × List Node × List (Name × String)) : Prop :=
+  List.Perm (r.2.2.map (·.1) ++ outsOf r.2.1) P0 ∧
   ClosedL (r.2.2.map (·.1) ++ S0) r.2.1 ∧
   (∀ x, D x → x ∈ r.2.2.map (·.1) ++ S0 ∨ ∃ m ∈ r.2.1, x ∈ m.outputs) ∧
   (r.1.err.isSome = true ∨
     ∀ x y, lookupA r.1.sym x = some (.alias y) → y ∈ r.2.2.map (·.1) ++ S0 ∨ ∃ m ∈ r.2.1, y ∈ m.outputs)
 
-theorem ClA.final {S0 : List Name} {D : Name → Prop} {st st' : St} {acc todo : List Node} {ai : List (Name × String)}
-    (h : ClA S0 D st acc todo ai) (hs : st'.err.isSome = true ∨ st'.sym = st.sym) :
-    FinalCl S0 D (st', acc.reverse ++ todo, ai) := by
-  refine ⟨h.closed, ?_, ?_⟩
+theorem ClA.final {S0 : List Name} {D : Name → Prop} {P0 : List Name} {st st' : St} {acc todo : List Node} {ai : List (Name × String)}
+    (h : ClA S0 D P0 st acc todo ai) (hs : st'.err.isSome = true ∨ st'.sym = st.sym) :
+    FinalCl S0 D P0 (st', acc.reverse ++ todo, ai) := by
+  refine ⟨h.perm, h.closed, ?_, ?_⟩
   · intro x hx
     rcases h.defs x hx with h1 | ⟨m, hm, hmx⟩
     · exact Or.inl h1
@@ -131,10 +149,11 @@ theorem mem_acc_scope {S : List Name} {acc : List Node} {x : Name}
   · exact Or.inr ⟨m, List.mem_reverse.mp hm, hx⟩
 
 /-- after the alias substitution on the node at the head of `todo` -/
-theorem ClA.subst {S0 : List Name} {D : Name → Prop} {st st0 : St} {acc rest : List Node} {n0 : Node}
-    {ai : List (Name × String)} (h : ClA S0 D st acc (n0 :: rest) ai) (hs : SameIS st st0) :
-    ClA S0 D st0 acc (n0.setInputs (n0.inputs.map (substOne st)) :: rest) ai := by
-  refine ⟨?_, ?_, ?_, ?_, ?_⟩
+theorem ClA.subst {S0 : List Name} {D : Name → Prop} {P0 : List Name} {st st0 : St} {acc rest : List Node} {n0 : Node}
+    {ai : List (Name × String)} (h : ClA S0 D P0 st acc (n0 :: rest) ai) (hs : SameIS st st0) :
+    ClA S0 D P0 st0 acc (n0.setInputs (n0.inputs.map (substOne st)) :: rest) ai := by
+  refine ⟨?_, ?_, ?_, ?_, ?_,
+    (by rw [outsOf_mid_eq acc.reverse rest n0 _ (setInputs_outputs _ _)]; exact h.perm)⟩
   · apply ClosedL_replace_mid acc.reverse h.closed (setInputs_outputs _ _)
     intro x hx
     rw [setInputs_inputs] at hx
@@ -186,12 +205,13 @@ theorem ClA.subst {S0 : List Name} {D : Name → Prop} {st st0 : St} {acc rest :
     exact h.aliasNF x y hx
 
 /-- the node at the head of `todo` is kept -/
-theorem ClA.keep {S0 : List Name} {D : Name → Prop} {st st' : St} {acc rest : List Node} {n : Node}
-    {ai : List (Name × String)} (h : ClA S0 D st acc (n :: rest) ai)
+theorem ClA.keep {S0 : List Name} {D : Name → Prop} {P0 : List Name} {st st' : St} {acc rest : List Node} {n : Node}
+    {ai : List (Name × String)} (h : ClA S0 D P0 st acc (n :: rest) ai)
     (hsym : ∀ x y, lookupA st'.sym x = some (.alias y) → lookupA st.sym x = some (.alias y) ∨ n.inputs.contains (some y) = true) :
-    ClA S0 D st' (n :: acc) rest ai := by
+    ClA S0 D P0 st' (n :: acc) rest ai := by
   have hl : (n :: acc).reverse ++ rest = acc.reverse ++ n :: rest := by simp
-  refine ⟨by rw [hl]; exact h.closed, ?_, ?_, fun m hm => h.innf m (List.mem_cons_of_mem _ hm), ?_⟩
+  refine ⟨by rw [hl]; exact h.closed, ?_, ?_, fun m hm => h.innf m (List.mem_cons_of_mem _ hm), ?_,
+    (by rw [hl]; exact h.perm)⟩
   · intro x hx
     rcases h.defs x hx with h1 | ⟨m, hm, hmx⟩
     · exact Or.inl h1
@@ -214,10 +234,10 @@ theorem ClA.keep {S0 : List Name} {D : Name → Prop} {st st' : St} {acc rest : 
     · exact h.innf n List.mem_cons_self y (by simpa using h1)
 
 /-- the node at the head of `todo` is folded into the initializer `o` -/
-theorem ClA.fold {S0 : List Name} {D : Name → Prop} {st st' : St} {acc rest : List Node} {n : Node}
-    {ai : List (Name × String)} (h : ClA S0 D st acc (n :: rest) ai) (o : Name) (tok : String) (ho : n.outputs = [o])
+theorem ClA.fold {S0 : List Name} {D : Name → Prop} {P0 : List Name} {st st' : St} {acc rest : List Node} {n : Node}
+    {ai : List (Name × String)} (h : ClA S0 D P0 st acc (n :: rest) ai) (o : Name) (tok : String) (ho : n.outputs = [o])
     (hsym : ∀ x y, lookupA st'.sym x = some (.alias y) → lookupA st.sym x = some (.alias y)) :
-    ClA S0 D st' acc rest (ai ++ [(o, tok)]) := by
+    ClA S0 D P0 st' acc rest (ai ++ [(o, tok)]) := by
   have hsub : ∀ x, x ∈ ai.map (·.1) ++ S0 → x ∈ (ai ++ [(o, tok)]).map (·.1) ++ S0 := by
     intro x hx
     rcases List.mem_append.mp hx with h1 | h1
@@ -227,7 +247,11 @@ theorem ClA.fold {S0 : List Name} {D : Name → Prop} {st st' : St} {acc rest : 
     apply List.mem_append_left
     rw [List.map_append]
     exact List.mem_append_right _ (by simp)
-  refine ⟨?_, ?_, ?_, fun m hm => h.innf m (List.mem_cons_of_mem _ hm), fun x y hx => h.aliasNF x y (hsym x y hx)⟩
+  refine ⟨?_, ?_, ?_, fun m hm => h.innf m (List.mem_cons_of_mem _ hm), fun x y hx => h.aliasNF x y (hsym x y hx),
+    (by
+      have : (ai ++ [(o, tok)]).map (·.1) = ai.map (·.1) ++ [o] := by simp
+      rw [this]
+      exact (perm_fold (ai.map (·.1)) acc.reverse rest n o ho).trans h.perm)⟩
   · apply ClosedL_remove_mid acc.reverse h.closed hsub
     intro x hx
     rw [ho] at hx
@@ -249,12 +273,13 @@ theorem ClA.fold {S0 : List Name} {D : Name → Prop} {st st' : St} {acc rest : 
     · exact Or.inr h1
 
 /-- the node at the head of `todo` is replaced by a node reading some of its inputs, with its outputs -/
-theorem ClA.repl {S0 : List Name} {D : Name → Prop} {st st' : St} {acc rest : List Node} {n m : Node}
-    {ai : List (Name × String)} (h : ClA S0 D st acc (n :: rest) ai) (hout : m.outputs = n.outputs)
+theorem ClA.repl {S0 : List Name} {D : Name → Prop} {P0 : List Name} {st st' : St} {acc rest : List Node} {n m : Node}
+    {ai : List (Name × String)} (h : ClA S0 D P0 st acc (n :: rest) ai) (hout : m.outputs = n.outputs)
     (hin : ∀ x, some x ∈ m.inputs → some x ∈ n.inputs)
     (hsym : ∀ x y, lookupA st'.sym x = some (.alias y) → lookupA st.sym x = some (.alias y)) :
-    ClA S0 D st' acc (m :: rest) ai := by
-  refine ⟨?_, ?_, ?_, ?_, fun x y hx => h.aliasNF x y (hsym x y hx)⟩
+    ClA S0 D P0 st' acc (m :: rest) ai := by
+  refine ⟨?_, ?_, ?_, ?_, fun x y hx => h.aliasNF x y (hsym x y hx),
+    (by rw [outsOf_mid_eq acc.reverse rest n m hout]; exact h.perm)⟩
   · apply ClosedL_replace_mid acc.reverse h.closed hout
     intro x hx
     exact ClosedL_mid_inputs acc.reverse h.closed x (hin x hx)
@@ -274,10 +299,10 @@ theorem ClA.repl {S0 : List Name} {D : Name → Prop} {st st' : St} {acc rest : 
     · exact h.innf k (List.mem_cons_of_mem _ hk') x hx
 
 /-- **The scope invariant holds through the node loop on fragment A.** -/
-theorem visitNodes_clA (ctx : Ctx) (hnf : ctx.isFunction = false) (vg : St → Graph → St × Graph) (S0 : List Name) (D : Name → Prop) :
+theorem visitNodes_clA (ctx : Ctx) (hnf : ctx.isFunction = false) (vg : St → Graph → St × Graph) (S0 : List Name) (D : Name → Prop) (P0 : List Name) :
     ∀ (f : Nat) (todo : List Node) (st : St) (acc : List Node) (ai : List (Name × String)),
-      (∀ n ∈ todo, FragBk n) → ClA S0 D st acc todo ai →
-      FinalCl S0 D (visitNodes ctx vg f st todo acc ai) := by
+      (∀ n ∈ todo, FragBk n) → ClA S0 D P0 st acc todo ai →
+      FinalCl S0 D P0 (visitNodes ctx vg f st todo acc ai) := by
   intro f
   induction f with
   | zero =>
@@ -294,7 +319,7 @@ theorem visitNodes_clA (ctx : Ctx) (hnf : ctx.isFunction = false) (vg : St → G
     | cons n0 rest =>
       have hfr0 := hfr n0 List.mem_cons_self
       have hfrrest : ∀ m ∈ rest, FragBk m := fun m hm => hfr m (List.mem_cons_of_mem _ hm)
-      have stuck : ∀ (s : St), s.err.isSome = true → FinalCl S0 D (s, acc.reverse ++ n0 :: rest, ai) :=
+      have stuck : ∀ (s : St), s.err.isSome = true → FinalCl S0 D P0 (s, acc.reverse ++ n0 :: rest, ai) :=
         fun s h2 => hb.final (Or.inl h2)
       obtain ⟨hspec1, hspec2⟩ := substInputs_spec st n0
       have hb0 := hb.subst hspec2
@@ -305,12 +330,12 @@ theorem visitNodes_clA (ctx : Ctx) (hnf : ctx.isFunction = false) (vg : St → G
       have hnout : n.outputs = n0.outputs := by rw [hspec1, setInputs_outputs]
       have keepCase : ∀ (st' : St),
           (∀ x y, lookupA st'.sym x = some (.alias y) → lookupA st0.sym x = some (.alias y) ∨ n.inputs.contains (some y) = true) →
-          FinalCl S0 D (visitNodes ctx vg f st' rest (n :: acc) ai) :=
+          FinalCl S0 D P0 (visitNodes ctx vg f st' rest (n :: acc) ai) :=
         fun st' hsym => ih rest st' (n :: acc) ai hfrrest (hb0.keep hsym)
       have cascade : ∀ (stG : St) (v : Nat),
           (∀ x y, lookupA stG.sym x = some (.alias y) → lookupA st0.sym x = some (.alias y) ∨
             (n.outputs.contains x = true ∧ n.inputs.contains (some y) = true)) →
-          FinalCl S0 D
+          FinalCl S0 D P0
             (match gateCascade ctx stG n v with
               | (PRes.error m, st) => ({ st with err := some m }, acc.reverse ++ n0 :: rest, ai)
               | (PRes.keep n', st) => visitNodes ctx vg f (visitSubs vg st n'.subs).1 rest (n'.setSubs (visitSubs vg st n'.subs).2 :: acc) ai
@@ -426,7 +451,7 @@ theorem visitNodes_clA (ctx : Ctx) (hnf : ctx.isFunction = false) (vg : St → G
             simp only []
             generalize hE : evalPartial n v st0 = e
             obtain ⟨r1, st2⟩ := e
-            rcases hes st0 v with ⟨hr, hsym⟩ | ⟨x, opn, attrs, hr, hxin, hsym, hkind⟩
+            rcases (hes st0 v).2 with ⟨hr, hsym⟩ | ⟨x, opn, attrs, hr, hxin, hsym, hkind⟩
             · rw [hE] at hr hsym
               simp only [] at hr hsym
               subst hr
@@ -444,7 +469,7 @@ theorem visitNodes_clA (ctx : Ctx) (hnf : ctx.isFunction = false) (vg : St → G
               have hfr' : ∀ k ∈ mkNode opn [some x] [o] attrs :: rest, FragBk k := by
                 intro k hk
                 rcases List.mem_cons.mp hk with rfl | hk'
-                · rcases hkind with ⟨rfl, rfl⟩ | ⟨rfl, t, rfl⟩
+                · rcases hkind with ⟨rfl, rfl, _⟩ | ⟨rfl, ⟨t, rfl⟩, _, _⟩
                   · exact ⟨rfl, rfl, Or.inr (Or.inr (Or.inl ⟨rfl, rfl, x, o, rfl, rfl⟩))⟩
                   · exact ⟨rfl, rfl, Or.inr (Or.inr (Or.inr (clsX_cast _ x o rfl rfl rfl)))⟩
                 · exact hfrrest k hk'
@@ -490,17 +515,28 @@ theorem innf_of_cnt (nodes : List Node) (h : ∀ k : Nat, cnt ("%" ++ toString k
   have := List.count_pos_iff.mpr this
   omega
 
+/-- single assignment (one level): initializer names and node outputs are pairwise distinct, and no node output is a formal input -/
+def SSA (g : Graph) : Prop :=
+  (g.inits.map (·.1) ++ outsOf g.nodes).Nodup ∧ ∀ o, o ∈ outsOf g.nodes → o ∉ g.inputs
+
+theorem outsOf_map_io (f : Node → Node) (ho : ∀ n, (f n).outputs = n.outputs) : ∀ (l : List Node), outsOf (l.map f) = outsOf l
+  | [] => rfl
+  | n :: r => by
+    rw [List.map_cons, outsOf_cons, outsOf_cons, ho, outsOf_map_io f ho r]
+
 theorem closedA_aux (k : Nat) (ctx : Ctx) (hnf : ctx.isFunction = false) (info : List (Name × VInfo)) (g : Graph)
     (hfr : ∀ n ∈ g.nodes, FragBk n) (hnofresh : ∀ k : Nat, cnt ("%" ++ toString k) g.nodes = 0)
     (sc : List Name) (hcl : GraphClosed sc g) :
     GraphClosed sc (pruneInits (visitGraph ctx (k + 1) (initialState g info) g).1.removed (k + 1)
-      (visitGraph ctx (k + 1) (initialState g info) g).2) := by
+      (visitGraph ctx (k + 1) (initialState g info) g).2) ∧
+    (SSA g → SSA (pruneInits (visitGraph ctx (k + 1) (initialState g info) g).1.removed (k + 1)
+      (visitGraph ctx (k + 1) (initialState g info) g).2)) := by
   have hprune := prune_ok_fragmentA k ctx hnf info g hfr hnofresh
   generalize hR : (visitGraph ctx (k + 1) (initialState g info) g).1.removed = R at hprune ⊢
   let S0 := g.inits.map (·.1) ++ (g.inputs ++ sc)
   let D : Name → Prop := fun x => x ∈ S0 ∨ ∃ m ∈ g.nodes, x ∈ m.outputs
-  have hinit : ClA S0 D (initialState g info) [] g.nodes [] := by
-    refine ⟨by simpa using hcl.1, ?_, ?_, innf_of_cnt g.nodes hnofresh, ?_⟩
+  have hinit : ClA S0 D (outsOf g.nodes) (initialState g info) [] g.nodes [] := by
+    refine ⟨by simpa using hcl.1, ?_, ?_, innf_of_cnt g.nodes hnofresh, ?_, by simp⟩
     · intro x hx
       rcases hx with h | ⟨m, hm, hmx⟩
       · exact Or.inl (by simpa using h)
@@ -511,13 +547,13 @@ theorem closedA_aux (k : Nat) (ctx : Ctx) (hnf : ctx.isFunction = false) (info :
     · intro x y hx
       rw [(initialState_sym g info).1] at hx
       simp [lookupA] at hx
-  have hfin := visitNodes_clA ctx hnf (visitGraph ctx k) S0 D
+  have hfin := visitNodes_clA ctx hnf (visitGraph ctx k) S0 D (outsOf g.nodes)
     (stepFuel g + 16 * (initialState g info).uses.length) g.nodes (initialState g info) [] [] hfr hinit
   generalize hvn : visitNodes ctx (visitGraph ctx k) (stepFuel g + 16 * (initialState g info).uses.length)
     (initialState g info) g.nodes [] [] = r at hfin
   obtain ⟨stN, L, added⟩ := r
-  obtain ⟨hc, hdefs, halias⟩ := hfin
-  simp only [] at hc hdefs halias
+  obtain ⟨hperm, hc, hdefs, halias⟩ := hfin
+  simp only [] at hperm hc hdefs halias
   have hres : ∃ outs, (visitGraph ctx (k + 1) (initialState g info) g).2 = Graph.mk g.inputs (g.inits ++ added) L outs ∧
       (∀ o', o' ∈ outs → o' ∈ g.outputs ∨ (stN.err.isSome = false ∧ ∃ o, lookupA stN.sym o = some (.alias o'))) := by
     simp only [visitGraph, hvn]
@@ -557,7 +593,7 @@ theorem closedA_aux (k : Nat) (ctx : Ctx) (hnf : ctx.isFunction = false) (info :
       · exact List.mem_append_left _ (hmemf g.inits h' (fun p hp => List.mem_append_left _ hp))
       · exact List.mem_append_right _ h'
   rw [hfg]
-  refine ⟨?_, ?_⟩
+  refine ⟨⟨?_, ?_⟩, ?_⟩
   · show ClosedL _ (L.map _)
     apply ClosedL_map_io _ (fun n => setSubs_inputs n _) (fun n => setSubs_outputs n _)
     apply ClosedL_restrict L hc
@@ -591,10 +627,55 @@ theorem closedA_aux (k : Nat) (ctx : Ctx) (hnf : ctx.isFunction = false) (info :
     · exact Or.inl (hkeep o' h hnr)
     · exact Or.inr ⟨m.setSubs _, List.mem_map.mpr ⟨m, hm, rfl⟩, by rw [setSubs_outputs]; exact hmo⟩
 
+  · intro hssa
+    have hout : outsOf (L.map fun n => n.setSubs (n.subs.map fun (p : String × Graph) => (p.1, pruneInits R k p.2))) = outsOf L :=
+      outsOf_map_io _ (fun n => setSubs_outputs n _) L
+    refine ⟨?_, ?_⟩
+    · show (List.map (·.1) ((g.inits ++ added).filter fun p => !R.contains p.1) ++ outsOf (L.map _)).Nodup
+      rw [hout]
+      have h1 : (g.inits.map (·.1) ++ (added.map (·.1) ++ outsOf L)).Nodup :=
+        (List.Perm.nodup_iff (List.Perm.append_left _ hperm)).mpr hssa.1
+      have h2 : ((g.inits ++ added).map (·.1) ++ outsOf L).Nodup := by
+        rw [List.map_append, List.append_assoc]; exact h1
+      exact List.Nodup.sublist (List.Sublist.append (List.Sublist.map _ List.filter_sublist) (List.Sublist.refl _)) h2
+    · intro o ho
+      have ho' : o ∈ outsOf L := by
+        have : o ∈ outsOf (L.map fun n => n.setSubs (n.subs.map fun (p : String × Graph) => (p.1, pruneInits R k p.2))) := ho
+        rw [hout] at this; exact this
+      exact hssa.2 o ((List.Perm.mem_iff hperm).mp (List.mem_append_right _ ho'))
+
 /-- **Scope well-formedness is preserved on fragment A** (`fold_wf`, one level, `_clear_unused_initializers` included). -/
 theorem foldGraph_closedA (ctx : Ctx) (hnf : ctx.isFunction = false) (info : List (Name × VInfo)) (g : Graph)
     (hfr : ∀ n ∈ g.nodes, FragBk n) (hnofresh : ∀ k : Nat, cnt ("%" ++ toString k) g.nodes = 0)
     (sc : List Name) (hcl : GraphClosed sc g) : GraphClosed sc (foldGraph ctx info g).2 :=
-  closedA_aux 7 ctx hnf info g hfr hnofresh sc hcl
+  (closedA_aux 7 ctx hnf info g hfr hnofresh sc hcl).1
+
+theorem ClosedL_of_all : ∀ (l : List Node) (S : List Name), (∀ n ∈ l, ∀ x, some x ∈ n.inputs → x ∈ S) → ClosedL S l
+  | [], _, _ => trivial
+  | n :: rest, S, h => by
+    refine ⟨h n List.mem_cons_self, ?_⟩
+    apply ClosedL_of_all rest
+    intro m hm x hx
+    exact List.mem_append_right _ (h m (List.mem_cons_of_mem _ hm) x hx)
+
+/-- every graph is scope-well-formed relative to an enclosing scope that has all the names it reads -/
+theorem graphClosed_self (g : Graph) :
+    GraphClosed ((g.nodes.flatMap fun n => n.inputs.filterMap id) ++ g.outputs) g := by
+  refine ⟨?_, ?_⟩
+  · apply ClosedL_of_all
+    intro n hn x hx
+    apply List.mem_append_right
+    apply List.mem_append_right
+    apply List.mem_append_left
+    exact List.mem_flatMap.mpr ⟨n, hn, List.mem_filterMap.mpr ⟨some x, hx, rfl⟩⟩
+  · intro o ho
+    left
+    exact List.mem_append_right _ (List.mem_append_right _ (List.mem_append_right _ ho))
+
+/-- **Single assignment is preserved on fragment A.** -/
+theorem foldGraph_ssaA (ctx : Ctx) (hnf : ctx.isFunction = false) (info : List (Name × VInfo)) (g : Graph)
+    (hfr : ∀ n ∈ g.nodes, FragBk n) (hnofresh : ∀ k : Nat, cnt ("%" ++ toString k) g.nodes = 0)
+    (hssa : SSA g) : SSA (foldGraph ctx info g).2 :=
+  (closedA_aux 7 ctx hnf info g hfr hnofresh _ (graphClosed_self g)).2 hssa
 
 end OV.C03
